@@ -43,13 +43,21 @@ def do_call(mmo, name):
       return ('ok', list(mmo.treatment_group_size_range()))
     if name == 'count_max_designs':
       return ('ok', int(mmo.count_max_designs()))
-    if name in ('treatment_groups', 'control_groups'):
+    if name in ('treatment_groups', 'control_groups', 'treatment_groups_first', 'control_groups_first'):
       sizes = list(mmo.treatment_group_size_range())
-      n = sizes[0] if sizes else 1
+      n = sizes[-1] if (sizes and name.endswith('_first')) else (sizes[0] if sizes else 1)
+      if name == 'treatment_groups_first':
+        gen = mmo.treatment_group_generator(n)
+        first = next(gen, None)          # the rest of the listing is abandoned
+        return ('ok', None if first is None else sorted(first))
       groups = [sorted(g) for g in mmo.treatment_group_generator(n)]
       if name == 'treatment_groups':
         return ('ok', groups)
       first = set(groups[0]) if groups else set()
+      if name == 'control_groups_first':
+        gen = mmo.control_group_generator(first)
+        c = next(gen, None)
+        return ('ok', None if c is None else sorted(c))
       return ('ok', [sorted(c) for c in mmo.control_group_generator(first)])
     if name == 'exh':
       return ('ok', designs_out(mmo.exhaustive_search()))
@@ -63,7 +71,7 @@ def do_call(mmo, name):
 
 
 CALLS = SETQ + ['geo_assignments', 'treatment_group_size_range', 'count_max_designs', 'treatment_groups',
-                'control_groups', 'exh', 'greedy', 'search_results']
+                'control_groups', 'treatment_groups_first', 'control_groups_first', 'exh', 'greedy', 'search_results']
 
 
 def fresh_object(inst):
@@ -197,7 +205,7 @@ def run(res):
   res.sample({'instance': {k: v for k, v in mm.public(insts[0]).items() if k != 'cells'}, 'history': jobs[len(jobs) // 2][2],
               'fresh_answers': {k: str(v)[:120] for k, v in fresh[0].items()}})
   res.exhaustive = False
-  res.rule = ('all call histories of length %d over 12 public calls (MMApi.tla) on %d instances + %d TLC-simulated histories '
+  res.rule = ('all call histories of length %d over 14 public calls (MMApi.tla) on %d instances + %d TLC-simulated histories '
               'of length %d spread over %d instances; distinct = distinct (instance, history); non-trivial = all (histories '
               'with a retrieval after a search counted separately)') % (depth, n_enum_insts, len(sims), simdepth, len(insts))
   res.assumptions += ['design_within_constraints() is not among the calls the property lists and is not exercised',
